@@ -383,6 +383,10 @@ def build_robot(layout, H, opts):
         y = will_reset_to("dflt")
         z = will_reset_to(2.5)  # CompA.z (below) re-declared with another default
 
+        def setup(self):
+            # extends the inherited setup(): the base body runs once, through this call
+            super().setup()
+
     CompA.z = will_reset_to(1.5)
 
     class CompB1:
@@ -394,6 +398,7 @@ def build_robot(layout, H, opts):
         def __init__(self):
             H.log.add("ctor", self.NAME)
             self.plain = "init"
+            self.y = "set by the constructor"  # a marked attribute: the declared default wins at start-up
 
         def setup(self):
             H.callback("c2.setup", "c2")
@@ -556,16 +561,37 @@ def build_robot(layout, H, opts):
             def execute(self):
                 H.callback("c5.execute", "c5")
 
+        class CompK:
+            """Gets its dependency through the constructor (declared before components that do not)."""
+            NAME = "c6"
+
+            def __init__(self, shared: Shared):
+                H.log.add("ctor", "c6")
+                self.got = shared
+
+            def setup(self):
+                H.callback("c6.setup", "c6")
+
+            def on_enable(self):
+                H.callback("c6.on_enable", "c6")
+
+            def on_disable(self):
+                H.callback("c6.on_disable", "c6")
+
+            def execute(self):
+                H.callback("c6.execute", "c6")
+
         class Robot(RobotBase0):
             c3: CompC
+            c6: CompK
             c4: CompD
             c5: CompE
             c1: CompA
-        comps = ["c3", "c4", "c5", "c1"]
+        comps = ["c3", "c6", "c4", "c5", "c1"]
     else:
         raise ValueError(layout)
     hooks = {"c1": {"setup", "on_enable", "on_disable"}, "c2": {"setup", "on_enable", "on_disable"}, "c3": set(),
-             "c4": {"on_disable"}, "c5": {"on_enable"}}
+             "c4": {"on_disable"}, "c5": {"on_enable"}, "c6": {"setup", "on_enable", "on_disable"}}
     return Robot, comps, hooks
 
 
